@@ -251,7 +251,7 @@ LINT_TEXT = (" Over the property's anchor files the check also runs the reposito
              "control: SW1 swapped same-named arguments, OV1 product overflowing before widening, N1 fold before use, D3 stale "
              "sine/cosine after its angle is corrected, CP1/CP2 consistent renaming between sibling clones (statements of a block, whole functions of a class), NB1 normalised string "
              "copy supersedes the raw argument, ZQ1 quotients that vanish together stay guarded after their operands are "
-             "reassigned, PRT1 sibling switches partition their labels alike, TW1 twin guards agree on fabs, DEAD1 no arm of an else-if chain is excluded by the earlier conditions of its chain, DZ1 no unguarded division by a member that an accepted argument (the sphere, a limiting cone) makes zero, ANG1 degrees and "
+             "reassigned, PRT1 sibling switches partition their labels alike, TW1 twin guards agree on fabs, DS1 no update of a scalar local by its own value (x += e) is dead, DEAD1 no arm of an else-if chain is excluded by the earlier conditions of its chain, DZ1 no unguarded division by a member that an accepted argument (the sphere, a limiting cone) makes zero, ANG1 degrees and "
              "radians are not mixed, ONE1 a signed angular difference is not bounded on one side only, POS1 a string position is not passed as a substring length, SWP1 sine/cosine companions are exchanged together, SC1 sincosd results land in the variables named for them, AUX1 the auxiliary-latitude kind of a variable's name "
              "agrees with the enumerator it is converted from / to (unit inference: no radian value reaches a degree-argument function or vice versa, none is "
              "converted twice, degrees are never added to or compared with radians).")
